@@ -6,9 +6,12 @@
    "stream:after_wake" does not block (nothing but the return to the caller follows it).
    A turn of a task that has finished is skipped.  When the schedule is exhausted the unfinished
    tasks are completed one after the other: stream tasks in index order, then the driver.
-   Phase 2 (later calls, sequential): the woken flag is read, the driver is polled again, every
-   stream handle raises a second error (a read fails), then a third one (a write fails), the driver
-   is polled a third time.
+   The scheduled driver script is one poll, or two (the second only if the first returned Pending;
+   every poll with a waker of its own).
+   Phase 2 (later calls, sequential): the woken flag of the last scheduled poll's waker is read, the
+   driver is polled again, every stream handle that still exists raises a second error (a read fails),
+   then a third one (a write fails), the driver runs shutdown() on the lost transport, the driver is
+   polled a last time.
 
    Everything here is a composition of `step`s (see Proofs/SharedErrProofs.v, run_case_reachable). *)
 From H3V Require Import Base.Bytes Gen.GenCodes Gen.GenSharedErr Spec.FirstErrorWins Model.SharedErr.
@@ -54,35 +57,9 @@ Fixpoint d_finish (n : nat) (c : cfg) (w : world) : world :=
 Fixpoint s_finish (n : nat) (c : cfg) (w : world) (i : nat) : world :=
   match n with O => w | S m => if s_idle w i then w else s_finish m c (s_turn 64 c w i) i end.
 
-Record rstate := { rw : world; dstarted : bool; sstarted : list bool }.
+Record rstate := { rw : world; dpolls : nat; sstarted : list bool }.
 
 Definition poll_spec := (list dcall * bool)%type.
-
-Definition turn (c : cfg) (p1 : poll_spec) (errs : list err) (r : rstate) (t : nat) : rstate :=
-  match t with
-  | O =>
-      if dstarted r then
-        {| rw := d_turn 64 c (rw r); dstarted := true; sstarted := sstarted r |}
-      else
-        {| rw := d_turn 64 c (step c (rw r) (ABegin (fst p1) (snd p1))); dstarted := true; sstarted := sstarted r |}
-  | S i =>
-      match nth_error (sstarted r) i, nth_error errs i with
-      | Some true, _ => {| rw := s_turn 64 c (rw r) i; dstarted := dstarted r; sstarted := sstarted r |}
-      | Some false, Some e =>
-          {| rw := s_turn 64 c (step c (rw r) (ARaise i e)) i; dstarted := dstarted r;
-             sstarted := upd (sstarted r) i true |}
-      | _, _ => r
-      end
-  end.
-
-(* complete task t: at most 40 more turns (a driver poll has at most 3 points per
-   poll_connection_error call and the harness shapes have at most 5 calls) *)
-Definition complete (c : cfg) (p1 : poll_spec) (errs : list err) (r : rstate) (t : nat) : rstate :=
-  let r1 := turn c p1 errs r t in
-  match t with
-  | O => {| rw := d_finish 40 c (rw r1); dstarted := dstarted r1; sstarted := sstarted r1 |}
-  | S i => {| rw := s_finish 40 c (rw r1) i; dstarted := dstarted r1; sstarted := sstarted r1 |}
-  end.
 
 Fixpoint last_dev (tr : list event) : option event :=
   match tr with
@@ -99,15 +76,60 @@ Fixpoint last_srep (i : nat) (tr : list event) : option cerr :=
   | _ :: r => last_srep i r
   end.
 
+(* the scheduled driver script: npolls polls, the next one only when the previous returned Pending *)
+Definition d_more (npolls : nat) (r : rstate) : bool :=
+  match dpolls r with
+  | O => true
+  | S _ => Nat.ltb (dpolls r) npolls &&
+           match last_dev (trace (rw r)) with Some EPending => true | _ => false end
+  end.
+
+(* the driver thread starts its next scheduled poll, if it has one, without yielding *)
+Definition d_begin_if (c : cfg) (npolls : nat) (p1 : poll_spec) (r : rstate) : rstate :=
+  if d_idle (rw r) then
+    if d_more npolls r then
+      {| rw := step c (rw r) (ABegin (fst p1) (snd p1)); dpolls := S (dpolls r); sstarted := sstarted r |}
+    else r
+  else r.
+Definition d_turn_r (c : cfg) (r : rstate) : rstate :=
+  {| rw := d_turn 64 c (rw r); dpolls := dpolls r; sstarted := sstarted r |}.
+
+Definition turn (c : cfg) (npolls : nat) (p1 : poll_spec) (errs : list err) (r : rstate) (t : nat) : rstate :=
+  match t with
+  | O =>
+      let r1 := d_turn_r c (d_begin_if c npolls p1 r) in
+      (* a poll that returned is followed at once by the next scheduled poll, up to its first point *)
+      if d_idle (rw r1) then d_turn_r c (d_begin_if c npolls p1 r1) else r1
+  | S i =>
+      match nth_error (sstarted r) i, nth_error errs i with
+      | Some true, _ => {| rw := s_turn 64 c (rw r) i; dpolls := dpolls r; sstarted := sstarted r |}
+      | Some false, Some e =>
+          {| rw := s_turn 64 c (step c (rw r) (ARaise i e)) i; dpolls := dpolls r;
+             sstarted := upd (sstarted r) i true |}
+      | _, _ => r
+      end
+  end.
+
+(* complete task t: its remaining turns (a turn of a finished task changes nothing) *)
+Fixpoint turns (n : nat) (c : cfg) (npolls : nat) (p1 : poll_spec) (errs : list err) (r : rstate) (t : nat) : rstate :=
+  match n with O => r | S m => turns m c npolls p1 errs (turn c npolls p1 errs r t) t end.
+Definition complete (c : cfg) (npolls : nat) (p1 : poll_spec) (errs : list err) (r : rstate) (t : nat) : rstate :=
+  turns 80 c npolls p1 errs r t.
+
 Definition d_poll (c : cfg) (p : poll_spec) (w : world) : world :=
   d_finish 40 c (step c w (ABegin (fst p) (snd p))).
+Definition d_call (c : cfg) (e : err) (w : world) : world :=
+  d_finish 40 c (step c w (ACall e)).
 Definition s_raise (c : cfg) (w : world) (i : nat) (e : err) : world :=
   s_finish 40 c (step c w (ARaise i e)) i.
 
-Fixpoint raise_all (c : cfg) (w : world) (i : nat) (es : list err) : world * list (option cerr) :=
+(* later calls on the stream handles: None = this handle has no such later call *)
+Fixpoint raise_all (c : cfg) (w : world) (i : nat) (es : list (option err)) : world * list (option cerr) :=
   match es with
   | [] => (w, [])
-  | e :: r =>
+  | None :: r =>
+      let (w2, l) := raise_all c w (S i) r in (w2, None :: l)
+  | Some e :: r =>
       let w1 := s_raise c w i e in
       let (w2, l) := raise_all c w1 (S i) r in
       (w2, last_srep i (trace w1) :: l)
@@ -115,26 +137,31 @@ Fixpoint raise_all (c : cfg) (w : world) (i : nat) (es : list err) : world * lis
 
 Record result := {
   r_d1 : option event; r_woken : bool; r_s1 : list (option cerr);
-  r_d2 : option event; r_s2 : list (option cerr); r_s3 : list (option cerr); r_d3 : option event;
+  r_d2 : option event; r_s2 : list (option cerr); r_s3 : list (option cerr);
+  r_d4 : option event; r_d3 : option event;
   r_close : list N; r_final : world }.
 
 Definition seq0 (k : nat) : list nat := seq 0 k.
 
-Definition run_case (c : cfg) (k : nat) (setup : option poll_spec) (p1 : poll_spec) (errs : list err)
-           (sched : list nat) (p2 : poll_spec) (errs2 errs3 : list err) : result :=
+(* d4: a driver call that is not a poll (shutdown) and fails in the transport with e4 *)
+Definition run_case (c : cfg) (k : nat) (setup : option poll_spec) (npolls : nat) (p1 : poll_spec) (errs : list err)
+           (sched : list nat) (p2 : poll_spec) (errs2 errs3 : list (option err)) (e4 : option err) : result :=
   let w0 := match setup with Some p => d_poll c p (init k) | None => init k end in
-  let r0 := {| rw := w0; dstarted := false; sstarted := repeat false k |} in
-  let r1 := fold_left (turn c p1 errs) sched r0 in
-  let r2 := fold_left (complete c p1 errs) (map S (seq0 k)) r1 in
-  let r3 := complete c p1 errs r2 O in
+  let r0 := {| rw := w0; dpolls := O; sstarted := repeat false k |} in
+  let r1 := fold_left (turn c npolls p1 errs) sched r0 in
+  let r2 := fold_left (complete c npolls p1 errs) (map S (seq0 k)) r1 in
+  let r3 := complete c npolls p1 errs r2 O in
   let w1 := rw r3 in
   let w2 := d_poll c p2 w1 in
   let (w3a, s2) := raise_all c w2 O errs2 in
   let (w3, s3) := raise_all c w3a O errs3 in
-  let w4 := d_poll c p2 w3 in
+  let w3b := match e4 with Some e => d_call c e w3 | None => w3 end in
+  let w4 := d_poll c p2 w3b in
   {| r_d1 := last_dev (trace w1); r_woken := woken w1;
      r_s1 := map (fun i => last_srep i (trace w1)) (seq0 k);
-     r_d2 := last_dev (trace w2); r_s2 := s2; r_s3 := s3; r_d3 := last_dev (trace w4);
+     r_d2 := last_dev (trace w2); r_s2 := s2; r_s3 := s3;
+     r_d4 := match e4 with Some _ => last_dev (trace w3b) | None => None end;
+     r_d3 := last_dev (trace w4);
      r_close := closes (obs w4); r_final := w4 |}.
 
 (* ---- the specification's answer for the same case, computed WITHOUT the model:
